@@ -65,6 +65,8 @@ TEnd == /\ IsEvent("end")
                     okpos == ~Tr[l].cbused \/ Len(w.log) = pos     \* every expected callback happened (callback entry points)
                     okrc  == Tr[l].rc \in w.rcs
                     okobj == (IF w.rc = "ECONF_SUCCESS" THEN Tr[l].has_obj ELSE ~Tr[l].has_obj) /\ Tr[l].heap_ok
+                             \* fds_ok (C18 / C20): descriptors the caller's callback opened during the read are still open afterwards
+                             /\ ("fds_ok" \in DOMAIN Tr[l] => Tr[l].fds_ok)
                     okcfg == \/ w.rc # "ECONF_SUCCESS"
                              \/ Tr[l].kind = "cfg" /\ Seq2Set(Tr[l].ents) = EntSet(w.cfg)
                              \* C06 proper: what is visible stems from files the callback accepted (used for
